@@ -179,7 +179,7 @@ def configs(m):
         ("ast-all-speedup-hardwrap", m.create_markdown(renderer="ast", hard_wrap=True, plugins=P + ["speedup"]), P, False),
         ("ast-fenced", m.create_markdown(renderer=None, plugins=["table", "footnotes", FencedDirective([Admonition(), Image(), Figure(), Include()])]),
          ("table", "footnotes"), True),
-        ("ast-rst", m.create_markdown(renderer=None, plugins=["def_list", "task_lists", RSTDirective([Admonition(), Image(), Figure()])]),
+        ("ast-rst", m.create_markdown(renderer=None, plugins=["def_list", "task_lists", RSTDirective([Admonition(), Image(), Figure(), Include()])]),
          ("def_list", "task_lists"), True),
         # custom fence characters are a separate entry point of the directive parser
         ("ast-colon", m.create_markdown(renderer=None, plugins=["table", "spoiler", FencedDirective([Admonition(), Image(), Figure()], ":")]),
@@ -187,9 +187,13 @@ def configs(m):
     ]
 
 
-def check_doc(name, md, doc, fails):
+def check_doc(name, md, doc, fails, filectx=False):
     try:
-        toks = md(doc)
+        if filectx:
+            import worker
+            toks = worker.convert_file(md, doc)      # Markdown.read of a file next to the include fixtures
+        else:
+            toks = md(doc)
     except Exception:  # C01's business
         return False
     problems = []
@@ -203,7 +207,7 @@ def check_doc(name, md, doc, fails):
         problems += validate(toks)
     if problems:
         f = {"input": doc, "config": name, "kind": "grammar-violation", "detail": problems[:4]}
-        if all("nesting" in p for p in problems) and _vanishes_without_setext_bypass(md, doc):
+        if not filectx and all("nesting" in p for p in problems) and _vanishes_without_setext_bypass(md, doc):
             f["class"] = "setext-underline-opens-list-at-depth-limit"
         fails.append(f)
     return True
@@ -258,6 +262,14 @@ def oracle(ctx, extra):
         if check_doc(name, md, doc, fails):
             n += 1
             seen.add(doc)
+        if i % 15 == 7:
+            # with a file context: include directives (targets of every kind, also inside quotes) in the token list
+            style = r.choice(["fenced", "rst"])
+            name2, md2 = cfgs[3][:2] if style == "fenced" else cfgs[4][:2]
+            d2 = gen_docs.include_doc(r, style)
+            if check_doc(name2 + "+file", md2, d2, fails, filectx=True):
+                n += 1
+                seen.add(d2)
         if len([f for f in fails if not f.get("class")]) >= 5:
             break
     known = [f for f in fails if f.get("class")]
@@ -265,7 +277,7 @@ def oracle(ctx, extra):
     return {"evaluations": n, "distinct_nontrivial": len(seen), "failures": fails, "known_finding_instances": len(known),
             "rule": "55% generated documents, 15% interrupt/lazy fragments, 10% container pumps of depth 4-9 ending in various "
                     "blocks, directives holding containers, or indentation staircases of lone markers, 10% mutated, 10% noise; 6 configurations with renderer=None (core, all plugins, all+speedup+hardwrap, "
-                    "fenced directives, RST directives, colon-fenced directives); token list validated against the grammar and json.dumps; distinct by text",
+                    "fenced directives, RST directives, colon-fenced directives); every 15th iteration a document of include directives (also inside quotes) converted with a file context (Markdown.read); token list validated against the grammar and json.dumps; distinct by text",
             "samples": [json.dumps(gen_docs.doc(ctx.rng('s'), plugins=gen_docs.ALL_PLUGINS))[:300]]}
 
 
@@ -285,7 +297,8 @@ def classify(f, known):
 def replay(ctx, case):
     c = case.get("case", case)
     fails = []
+    cfg = c.get("config") or ""
     for name, md, _p, _d in configs(ctx.mistune):
-        if name == c.get("config"):
-            check_doc(name, md, c["input"], fails)
+        if name == cfg or name + "+file" == cfg:
+            check_doc(cfg, md, c["input"], fails, filectx=cfg.endswith("+file"))
     return fails[0] if fails else None
